@@ -6,6 +6,9 @@ CONSTANT Kinds = {"tm", "krum"}
 CONSTANT TSeeds = {}
 CONSTANT ManyM = {}
 CONSTANT ManySteps = 1
+CONSTANT HistM = {}
+CONSTANT HistLen = 0
+CONSTANT HistPats = {}
 SPECIFICATION TraceSpec
 INVARIANT TraceConsumed
 CHECK_DEADLOCK FALSE
